@@ -376,44 +376,59 @@ func cmdCheck(args []string) int {
 	defer os.RemoveAll(out)
 	SolveAll(results, SolveOptions{Timeout: timeout, Both: both, OutDir: out, Workers: 5, Known: knownIDs})
 
-	// second round: served obligations that relied on an assumption which is no longer established
-	var again []*FuncResult
-	for _, r := range results {
-		drop := map[int]bool{}
-		var why []string
-		for _, o := range r.Obls {
-			if o.Unserved && !o.OK() && !knownIDs[o.ID] && o.AssumeIdx >= 0 {
-				drop[o.AssumeIdx] = true
-				why = append(why, strings.TrimPrefix(o.ID, r.ID+"#"))
-			}
-		}
-		if len(drop) == 0 {
-			continue
-		}
-		redo := false
-		for _, o := range r.Obls {
-			if o.Unserved || !o.OK() || o.Result.Solver == "trivial" || knownIDs[o.ID] {
-				continue
-			}
-			uses := false
-			for i := range drop {
-				if i < o.NAssume {
-					uses = true
+	// further rounds: obligations that relied on an assumption which is no longer established are decided again
+	// without it. This is iterated, because an unserved obligation that was only discharged thanks to such an
+	// assumption fails in the next round and its own assumption has to go as well.
+	for round := 0; round < 5; round++ {
+		var again []*FuncResult
+		for _, r := range results {
+			drop := map[int]bool{}
+			var why []string
+			for _, o := range r.Obls {
+				if o.Unserved && !o.OK() && !knownIDs[o.ID] && o.AssumeIdx >= 0 {
+					drop[o.AssumeIdx] = true
+					why = append(why, strings.TrimPrefix(o.ID, r.ID+"#"))
 				}
 			}
-			if !uses {
+			if len(drop) == 0 {
 				continue
 			}
-			o.Drop = drop
-			o.Result = SolveResult{}
-			o.Note = "decided without the assumption(s) left by " + strings.Join(why, ", ") + " (obligations of other properties in the same function that are no longer discharged)"
-			redo = true
+			if os.Getenv("GOVC_DEBUG") != "" {
+				fmt.Printf("DEBUG: round %d: %s: dropping assumptions of %v\n", round, r.ID, why)
+			}
+			redo := false
+			for _, o := range r.Obls {
+				if !o.OK() || o.Result.Solver == "trivial" || knownIDs[o.ID] || o.Kind == "cover" {
+					continue
+				}
+				uses, already := false, true
+				for i := range drop {
+					if i < o.NAssume {
+						uses = true
+						if !o.Drop[i] {
+							already = false
+						}
+					}
+				}
+				if !uses || already {
+					continue
+				}
+				nd := map[int]bool{}
+				for i := range drop {
+					nd[i] = true
+				}
+				o.Drop = nd
+				o.Result = SolveResult{}
+				o.Note = "decided without the assumption(s) left by " + strings.Join(why, ", ") + " (obligations of other properties in the same function that are no longer discharged)"
+				redo = true
+			}
+			if redo {
+				again = append(again, r)
+			}
 		}
-		if redo {
-			again = append(again, r)
+		if len(again) == 0 {
+			break
 		}
-	}
-	if len(again) > 0 {
 		SolveAll(again, SolveOptions{Timeout: timeout, Both: both, OutDir: out, Workers: 5, Known: knownIDs})
 	}
 	for _, r := range results {
